@@ -202,6 +202,8 @@ pub enum AOp {
     Get { recycle_fail: bool, create_fail: bool },
     GetNb,
     Return,
+    /// the caller panics while it holds the object: the object is dropped during unwinding
+    ReturnPanicking,
     Take,
     Resize(usize),
     Close,
@@ -286,6 +288,7 @@ pub fn a_ops(s: &State) -> Vec<AOp> {
     // A needs an object of its own for these: only when there is room for it
     if s.idle + s.main_held < s.max || s.idle > 0 {
         v.push(AOp::Return);
+        v.push(AOp::ReturnPanicking);
         v.push(AOp::Take);
     }
     v
@@ -392,7 +395,7 @@ fn run_sweep_inner(prop: &'static str, sc: &Scenario, ctl: &Arc<Ctl>, record_onl
     let mut a_obj: Option<TObject> = None;
     {
         let mut tmp = Vec::new();
-        let need_a = matches!(sc.a, AOp::Return | AOp::Take);
+        let need_a = matches!(sc.a, AOp::Return | AOp::ReturnPanicking | AOp::Take);
         let total = (st.idle + st.main_held + if need_a && st.idle + st.main_held < st.max { 1 } else { 0 }).min(st.max);
         for _ in 0..total {
             tmp.push(get_nb(&pool).expect("setup get"));
@@ -467,6 +470,15 @@ fn run_sweep_inner(prop: &'static str, sc: &Scenario, ctl: &Arc<Ctl>, record_onl
                     drop(a_obj);
                     ARes::Nothing
                 }
+                AOp::ReturnPanicking => {
+                    let _ = sh.holders.fetch_sub(1, Ordering::SeqCst);
+                    let r = catch_unwind(AssertUnwindSafe(move || {
+                        let _o = a_obj;
+                        std::panic::panic_any(vh_common::InjectedPanic(1));
+                    }));
+                    let _ = r;
+                    ARes::Nothing
+                }
                 AOp::Take => match a_obj {
                     Some(o) => {
                         let _ = sh.holders.fetch_sub(1, Ordering::SeqCst);
@@ -508,7 +520,7 @@ fn run_sweep_inner(prop: &'static str, sc: &Scenario, ctl: &Arc<Ctl>, record_onl
             }
         })
     };
-    let _ = sh.holders.fetch_add(main_held.len() as isize + if matches!(sc.a, AOp::Return | AOp::Take) { 1 } else { 0 }, Ordering::SeqCst);
+    let _ = sh.holders.fetch_add(main_held.len() as isize + if matches!(sc.a, AOp::Return | AOp::ReturnPanicking | AOp::Take) { 1 } else { 0 }, Ordering::SeqCst);
     // ---- wait until A is parked at the point (or finished / blocked elsewhere)
     let mut reached = false;
     if !record_only {
